@@ -61,7 +61,7 @@ def zopt(x):
 
 def key_coq(k):
     if isinstance(k, slice):
-        return '(KSl %s %s)' % (zopt(k.start), zopt(k.stop))
+        return '(KSl %s %s %s)' % (zopt(k.start), zopt(k.stop), zopt(k.step))
     return '(KInt (%d))' % k
 
 
